@@ -93,18 +93,24 @@ def registry_calls(body):
 
 
 def r1(run):
-    b = C.body_or_fail(run, C.APPEND)
+    for b in C.publishers(run.facts):
+        run.touch(b)
+        r1_for(run, b, b.def_)
+
+
+def r1_for(run, b, AP):
+    cut = C.iteration_cut(b)
     member = []
     for bb, si in b.switches():
         cond = si["cond"]
         if si["kind"] == "bool" and cond[0] == "call" and cond[1].fn == C.HASHSET_CONTAINS and q.has_field(cond[2][0], "contexts") \
                 and q.has_field(cond[2][1], "context_id"):
             member += q.edge_triples(b, bb, lambda m: m is True)
-    run.ob("%s|membership-test" % C.APPEND, bool(member), b.sp, "append tests contexts.contains(&frame.context_id)", reason="mechanism-not-found")
+    run.ob("%s|membership-test" % AP, bool(member), b.sp, "append tests contexts.contains(&frame.context_id)", reason="mechanism-not-found")
     reg = []
     for (bb, t, f) in topic_is_ctx_switches(b):
         reg += t
-    run.ob("%s|registration-branch" % C.APPEND, bool(reg), b.sp, "append has a topic == \"xs.context\" branch", reason="mechanism-not-found")
+    run.ob("%s|registration-branch" % AP, bool(reg), b.sp, "append has a topic == \"xs.context\" branch", reason="mechanism-not-found")
     via = member + reg
     effects = []
     for c in registry_calls(b):
@@ -122,7 +128,7 @@ def r1(run):
             effects.append(("return-Ok", bb, b.blocks[bb]["term"]["sp"]))
     run.floor("effects of append guarded by the context check", len(effects), 4, b.sp)
     for name, bb, sp in effects:
-        run.ob("%s|context-check-dominates|%s" % (C.APPEND, name), bool(via) and q.dominated(b, bb, via_edges=via), sp,
+        run.ob("%s|context-check-dominates|%s" % (AP, name), bool(via) and q.dominated(b, bb, via_edges=via), sp,
                "%s is reachable only through `contexts.contains(frame.context_id)` or the xs.context branch" % name, reason="unregistered-context-accepted")
     # the non-member edge reaches only Err returns
     non_member = []
@@ -130,53 +136,61 @@ def r1(run):
         cond = si["cond"]
         if si["kind"] == "bool" and cond[0] == "call" and cond[1].fn == C.HASHSET_CONTAINS and q.has_field(cond[2][0], "contexts"):
             non_member += q.edge_triples(b, bb, lambda m: m is False)
-    reach = b.reachable_blocks([t for (_, t, _) in non_member]) if non_member else set()
+    reach = b.reachable_blocks([t for (_, t, _) in non_member], removed_blocks=cut) if non_member else set()
     leak = [n for (n, bb, sp) in effects if bb in reach]
-    run.ob("%s|non-member-rejected" % C.APPEND, bool(non_member) and not leak, b.sp, "from the not-registered edge no effect and no Ok return is reachable (%s)" % leak,
+    run.ob("%s|non-member-rejected" % AP, bool(non_member) and not leak, b.sp, "from the not-registered edge no effect and no Ok return is reachable (%s)" % leak,
            reason="unregistered-context-accepted")
 
 
 def r2(run):
-    b = C.body_or_fail(run, C.APPEND)
+    for b in C.publishers(run.facts):
+        run.touch(b)
+        r2_for(run, b, b.def_)
+
+
+def r2_for(run, b, AP):
+    cut = C.iteration_cut(b)
     regs = topic_is_ctx_switches(b)
     if not regs:
-        run.missing("%s|registration-branch" % C.APPEND, "no topic == \"xs.context\" branch in append", b.sp)
+        run.missing("%s|registration-branch" % AP, "no topic == \"xs.context\" branch in append", b.sp)
         return
     bb0, t_edges, f_edges = regs[0]
     t_targets = [t for (_, t, _) in t_edges]
-    in_branch = b.reachable_blocks(t_targets)
+    in_branch = b.reachable_blocks(t_targets, removed_blocks=cut)
     # non-zero context => Err before any effect
     from .store_shared import store_points
     after_store = set()
     for (c0, es) in store_points(b):
-        after_store |= b.reachable_blocks([c0.bb])
+        after_store |= b.reachable_blocks([c0.bb], removed_blocks=cut)
     # the admission test comes before anything is stored (a spliced writer has its own, later, zero-context test for the registry)
     # (it may sit behind a `topic == "xs.context"` test of its own, e.g. in a spliced admission helper that runs before the branch)
-    in_any = b.reachable_blocks([t for (_, te, _) in regs for (_, t, _) in te])
+    in_any = b.reachable_blocks([t for (_, te, _) in regs for (_, t, _) in te], removed_blocks=cut)
     zs = [(bb, z, nz) for (bb, z, nz) in zero_ctx_switches(b) if bb in in_any and bb not in after_store]
-    run.ob("%s|registration|zero-context-test" % C.APPEND, bool(zs), b.sp, "the registration branch compares frame.context_id with ZERO_CONTEXT", reason="mechanism-not-found")
+    run.ob("%s|registration|zero-context-test" % AP, bool(zs), b.sp, "the registration branch compares frame.context_id with ZERO_CONTEXT", reason="mechanism-not-found")
     for (bb, z, nz) in zs:
-        reach = b.reachable_blocks([t for (_, t, _) in nz])
+        reach = b.reachable_blocks([t for (_, t, _) in nz], removed_blocks=cut)
         eff = [c for c in b.calls() if c.bb in reach and (c.fn in (C.INSERT_FRAME, C.BROADCAST_SEND, C.UNBOUNDED_SEND) or
                                                           (c.fn.startswith("std::collections::hash::set::HashSet") and c.fn.split("::")[-1] in MUTATORS))]
         oks = [bb2 for (bb2, e, raw) in b.return_defs() if bb2 in reach and strip(e)[0] == "agg" and strip(e)[1].get("variant") == "Ok"]
-        run.ob("%s|registration|non-zero-rejected" % C.APPEND, not eff and not oks, b.blocks[bb]["term"]["sp"],
+        run.ob("%s|registration|non-zero-rejected" % AP, not eff and not oks, b.blocks[bb]["term"]["sp"],
                "an xs.context frame outside the zero context is rejected without any effect", reason="context-frame-outside-zero")
     # ttl forced to Forever on every path from the branch to insert_frame
     b.defs()
     ttl_writes = []
     for (bi, si, lhs, rv, sp) in b.field_writes:
         pp = place_path(b.place_expr(lhs))
-        if pp and pp[-1] == "ttl" and bi in in_branch:
+        last = lhs["p"][-1] if lhs["p"] else None
+        is_frame_ttl = isinstance(last, dict) and last.get("n") == "ttl" and last.get("adt") == C.FRAME
+        if ((pp and pp[-1] == "ttl") or is_frame_ttl) and bi in in_branch:
             val = strip(b.rvalue_expr(rv))
             forever = val[0] == "agg" and val[1].get("variant") == "Some" and val[2] and strip(val[2][0])[0] == "agg" and strip(val[2][0])[1].get("variant") == "Forever"
             ttl_writes.append((bi, forever, sp, fmt(val)))
     good = [w for w in ttl_writes if w[1]]
-    run.ob("%s|registration|ttl-forced" % C.APPEND, bool(good) and len(good) == len(ttl_writes), good[0][2] if good else b.sp,
+    run.ob("%s|registration|ttl-forced" % AP, bool(good) and len(good) == len(ttl_writes), good[0][2] if good else b.sp,
            "frame.ttl is overwritten with Some(TTL::Forever) in the registration branch (%s)" % [w[3] for w in ttl_writes], reason="context-ttl-not-forced")
     for c in q.live_calls(b, C.INSERT_FRAME):
-        reach = b.reachable_blocks(t_targets, removed_blocks=[w[0] for w in good])
-        run.ob("%s|registration|ttl-forced-before-store" % C.APPEND, c.bb not in reach, c.sp,
+        reach = b.reachable_blocks(t_targets, removed_blocks=[w[0] for w in good] + cut)
+        run.ob("%s|registration|ttl-forced-before-store" % AP, c.bb not in reach, c.sp,
                "every path from the registration branch to insert_frame passes the ttl overwrite", reason="context-ttl-not-forced")
     ins = [c for c in registry_calls(b) if c.fn == C.HASHSET_INSERT and c.bb in in_branch]
     zero_edges = [e for (bb, z, nz) in zs for e in z]
@@ -186,11 +200,11 @@ def r2(run):
         # the admission test may sit behind an earlier `topic == "xs.context"` test of its own (frame.topic is never written here)
         zero_edges = q.implied_by_same_test(b, regs, zero_edges)
     for c in ins:
-        run.ob("%s|registration|registers-only-zero-context-frames" % C.APPEND, bool(zero_edges) and q.dominated(b, c.bb, via_edges=zero_edges), c.sp,
+        run.ob("%s|registration|registers-only-zero-context-frames" % AP, bool(zero_edges) and q.dominated(b, c.bb, via_edges=zero_edges), c.sp,
                "the registry insert in append lies behind the `context_id == ZERO_CONTEXT` edge of the admission test", reason="context-frame-outside-zero")
     for c in ins:
         v = strip(c.arg(1))
-        run.ob("%s|registration|registers-own-id" % C.APPEND, q.last_field(v) == "id", c.sp, "the id registered is the frame's own id: %s" % fmt(v), reason="wrong-id-registered")
+        run.ob("%s|registration|registers-own-id" % AP, q.last_field(v) == "id", c.sp, "the id registered is the frame's own id: %s" % fmt(v), reason="wrong-id-registered")
 
 
 def r3(run):
@@ -236,6 +250,8 @@ def allowed_writers(run):
     d = dict(ALLOWED_WRITERS)
     for r in C.removers(run.facts):
         d.setdefault(r, "unregistration (shared removal function)")
+    for pn in C.publisher_names(run.facts):
+        d.setdefault(pn, "registration (sibling publisher, verified like Store::append)")
     return d
 
 
